@@ -19,6 +19,7 @@ structure ColorModel where
 def colorShowDeform : Color.DeformResult → String
   | .map m => lat2dShowMap m
   | .valueError => lat2dErr
+  | .keyError => "EXC:KeyError"
   | .returnsNotImplementedError => "RET:NotImplementedError"
 
 /-- the sub-command after `lat <Class> <Lx> <Ly>` -/
